@@ -149,6 +149,8 @@ def h_crash(p: int, j: int, template: str, tail: int) -> None:
     reached()
 
 
+from zverif.harness.c05 import h_fault_late as _failed_exit, known_abort_truncate_fault  # noqa: E402,F401
+
 HARNESSES = [
     Harness('crash', h_crash,
             decides='for every durable prefix p of the OS-level operations and every byte-tear j of operation p: reopen '
@@ -163,6 +165,13 @@ HARNESSES = [
                   '(recorded concretely) tpc_begin/store/tpc_vote/_finish/_finish_finish/_abort/undo/restore'],
             quick=dict(timeout=170, shards=shards(template=['T1', 'T2', 'T4', 'T6', 'T10'], tail=[2])),
             thorough=dict(timeout=1500, shards=shards(template=['T1', 'T2', 'T3', 'T4', 'T5', 'T6', 'T10'], tail=[2, 4]))),
+    Harness('failed_exit', _failed_exit,
+            decides='a transaction that left two-phase commit through a failure (tpc_finish callback raising) is absent in full: none '
+                    'of its records appear in the following transactions, also after reopen (same harness as C05 fault_late)',
+            symbolic='-', bounds='template T1; the failed transaction has 3 records', oracle='RevStore battery',
+            code=['BaseStorage.tpc_begin (_clear_temp)', 'FileStorage.tpc_finish'],
+            quick=dict(timeout=60, shards=shards(template=['T1'], where=['finish_cb'])),
+            thorough=dict(timeout=60, shards=shards(template=['T1', 'T4'], where=['finish_cb']))),
 ]
 
 MANIFEST = dict(
